@@ -332,3 +332,30 @@ func VH_C18_large_single_segment() {
 	vAssert(vWord(out, 1+d) == refListPtrWord(0, 2, 1500), "C18.large.data-pointer-is-near")
 	vAssert(out[8*(2+d)+1499] == last, "C18.large.last-byte")
 }
+
+// two non-null pointers: the objects follow the struct in the order of the pointer fields
+// (pre-order), whatever order they were allocated in
+func VH_C18_two_pointers_preorder() {
+	_, seg := vNewMsg()
+	s, err := NewRootStruct(seg, ObjectSize{PointerCount: 2})
+	vAssume(err == nil)
+	a, b := vNondetU8(), vNondetU8()
+	if vConc(int(vNondetU8()), 2) == 1 {
+		// the second field's object is allocated first
+		vAssume(s.SetData(1, []byte{b, b, b}) == nil)
+		vAssume(s.SetData(0, []byte{a}) == nil)
+	} else {
+		vAssume(s.SetData(0, []byte{a}) == nil)
+		vAssume(s.SetData(1, []byte{b, b, b}) == nil)
+	}
+	out, err := Canonicalize(s)
+	vReach("returned")
+	vAssert(err == nil && len(out) == 8*5, "C18.preorder.length")
+	if err != nil || len(out) != 40 {
+		return
+	}
+	vAssert(vWord(out, 0) == refStructPtrWord(0, 0, 2), "C18.preorder.root-pointer")
+	vAssert(vWord(out, 1) == refListPtrWord(1, 2, 1), "C18.preorder.first-field-object-comes-first")
+	vAssert(vWord(out, 2) == refListPtrWord(1, 2, 3), "C18.preorder.second-field-object-comes-second")
+	vAssert(out[24] == a && out[32] == b && out[34] == b, "C18.preorder.object-bytes")
+}
